@@ -1,7 +1,11 @@
 import Driver.Util
-/-! Suite C07: line-protocol handlers (stub — replaced when the property's model is built). -/
+import Driver.Mac
+/-! Suite C07: twin runs on the model (see `Driver.Mac.runTwin`). -/
 namespace Driver.C07
 
-def handle (_ws : List String) : String := "bad-op"
+def handle (ws : List String) : String :=
+  match ws with
+  | "mac" :: rest => s!"{Driver.Mac.runTwin rest}|-"
+  | _ => "bad-op"
 
 end Driver.C07
